@@ -23,6 +23,9 @@ CONSTANTS Modern,      \* the version has checksummed segments (v5)
           Faults,      \* fault kinds injected (C16): subset of {"close-client", "close-server", "cancel", "drop"}; {} = none
           BigFrames,   \* numbers of the requests (raw client) / responses (raw server) whose envelope is larger than
                        \* one segment; the library never sends such envelopes (it cannot split), it only receives them
+          NEvents,     \* events the server pushes during the session (C10): envelopes numbered -1, -2, ...
+          NSpurious,   \* responses for stream ids no request carries (C10): envelopes numbered 101, 102, ...
+          Dup,         \* the client application may once re-send under the stream id of an unanswered request (C09/C10)
           SplitSmall   \* numbers of the requests / responses that fit a segment but which a raw peer MAY still split
                        \* over 2 or 3 segments (where to cut - inside the envelope header, at its end, evenly, one byte
                        \* before the end - is the harness's choice, cycled over the sessions)
@@ -32,9 +35,12 @@ VARIABLES phase,     \* handshake progress: "init" "startup" "answered" "authres
           c2s, s2c,  \* units in flight: <<[k, envs]>>  k in {"frame","seg","part"}
           cacc, sacc,\* multi-part reassembly at each reader: <<>> or <<[id, have, total]>>
           reqSent, reqGot, rspSent, rspGot,   \* application-level sequences of envelope ids
+          evSent, evGot,                      \* events pushed by the server / received on the client's event channel
+          spSent, dupDone,                    \* spurious responses sent; the duplicate send has been tried
           hist
 
-vars == <<phase, cmodern, smodern, c2s, s2c, cacc, sacc, reqSent, reqGot, rspSent, rspGot, hist>>
+vars == <<phase, cmodern, smodern, c2s, s2c, cacc, sacc, reqSent, reqGot, rspSent, rspGot, evSent, evGot, spSent, dupDone, hist>>
+c10vars == <<evSent, evGot, spSent, dupDone>>
 
 Unit(k, envs) == [k |-> k, envs |-> envs]
 \* how a SENDER in a given mode frames one envelope by itself
@@ -43,6 +49,7 @@ Solo(modern, id) == IF modern THEN Unit("seg", <<id>>) ELSE Unit("frame", <<id>>
 Init == /\ phase = "init" /\ cmodern = FALSE /\ smodern = FALSE
         /\ c2s = <<>> /\ s2c = <<>> /\ cacc = <<>> /\ sacc = <<>>
         /\ reqSent = <<>> /\ reqGot = <<>> /\ rspSent = <<>> /\ rspGot = <<>> /\ hist = <<>>
+        /\ evSent = <<>> /\ evGot = <<>> /\ spSent = 0 /\ dupDone = FALSE
 
 Log(step) == hist' = Append(hist, step)
 
@@ -53,7 +60,7 @@ ClientStartup ==
     /\ c2s' = Append(c2s, Unit("frame", <<"STARTUP">>))           \* always a legacy frame
     /\ phase' = "startup"
     /\ Log([a |-> "c-startup"])
-    /\ UNCHANGED <<cmodern, smodern, s2c, cacc, sacc, reqSent, reqGot, rspSent, rspGot>>
+    /\ UNCHANGED <<cmodern, smodern, s2c, cacc, sacc, reqSent, reqGot, rspSent, rspGot, c10vars>>
 
 ServerAnswerStartup ==
     /\ phase = "startup" /\ c2s # <<>> /\ Head(c2s).envs = <<"STARTUP">>
@@ -63,7 +70,7 @@ ServerAnswerStartup ==
     /\ smodern' = Modern
     /\ phase' = "answered"
     /\ Log([a |-> "s-answer"])
-    /\ UNCHANGED <<cmodern, cacc, sacc, reqSent, reqGot, rspSent, rspGot>>
+    /\ UNCHANGED <<cmodern, cacc, sacc, reqSent, reqGot, rspSent, rspGot, c10vars>>
 
 ClientReadAnswer ==
     /\ phase = "answered" /\ s2c # <<>>
@@ -74,7 +81,7 @@ ClientReadAnswer ==
                ELSE /\ c2s' = c2s
                     /\ phase' = "done"
     /\ Log([a |-> "c-read-answer"])
-    /\ UNCHANGED <<smodern, cacc, sacc, reqSent, reqGot, rspSent, rspGot>>
+    /\ UNCHANGED <<smodern, cacc, sacc, reqSent, reqGot, rspSent, rspGot, c10vars>>
 
 ServerAuthSuccess ==
     /\ phase = "authresp" /\ c2s # <<>>
@@ -82,14 +89,14 @@ ServerAuthSuccess ==
     /\ s2c' = Append(s2c, Solo(smodern, "AUTH_SUCCESS"))
     /\ phase' = "authok"
     /\ Log([a |-> "s-auth-success"])
-    /\ UNCHANGED <<cmodern, smodern, cacc, sacc, reqSent, reqGot, rspSent, rspGot>>
+    /\ UNCHANGED <<cmodern, smodern, cacc, sacc, reqSent, reqGot, rspSent, rspGot, c10vars>>
 
 ClientReadAuthSuccess ==
     /\ phase = "authok" /\ s2c # <<>>
     /\ s2c' = Tail(s2c)
     /\ phase' = "done"
     /\ Log([a |-> "c-read-auth-success"])
-    /\ UNCHANGED <<cmodern, smodern, c2s, cacc, sacc, reqSent, reqGot, rspSent, rspGot>>
+    /\ UNCHANGED <<cmodern, smodern, c2s, cacc, sacc, reqSent, reqGot, rspSent, rspGot, c10vars>>
 
 -----------------------------------------------------------------------------
 (* after the handshake *)
@@ -117,7 +124,7 @@ ClientSend(k) ==
             /\ c2s' = c2s \o pack
             /\ Log([a |-> "c-send", ids |-> ids, pack |-> pack])
        /\ reqSent' = reqSent \o ids
-    /\ UNCHANGED <<phase, cmodern, smodern, s2c, cacc, sacc, reqGot, rspSent, rspGot>>
+    /\ UNCHANGED <<phase, cmodern, smodern, s2c, cacc, sacc, reqGot, rspSent, rspGot, c10vars>>
 
 \* a reader consumes one unit: whole envelopes are delivered in order; parts accumulate until complete
 Deliver(u, acc, got) ==
@@ -131,7 +138,7 @@ ServerRead ==
     /\ LET d == Deliver(Head(c2s), sacc, reqGot) IN /\ sacc' = d.acc /\ reqGot' = d.got
     /\ c2s' = Tail(c2s)
     /\ Log([a |-> "s-read"])
-    /\ UNCHANGED <<phase, cmodern, smodern, s2c, cacc, reqSent, rspSent, rspGot>>
+    /\ UNCHANGED <<phase, cmodern, smodern, s2c, cacc, reqSent, rspSent, rspGot, c10vars>>
 
 \* the server application answers received requests, in any order
 ServerSend(k) ==
@@ -143,14 +150,43 @@ ServerSend(k) ==
                  /\ s2c' = s2c \o pack
                  /\ Log([a |-> "s-send", ids |-> ids, pack |-> pack])
             /\ rspSent' = rspSent \o ids
-    /\ UNCHANGED <<phase, cmodern, smodern, c2s, cacc, sacc, reqSent, reqGot, rspGot>>
+    /\ UNCHANGED <<phase, cmodern, smodern, c2s, cacc, sacc, reqSent, reqGot, rspGot, c10vars>>
 
+\* what arrives at the client is sorted by kind (C10): responses go to the request with their stream id, events
+\* (negative numbers) to the event channel, responses for ids nobody carries (above 100) are dropped
+Keep(sq, P(_)) == SelectSeq(sq, P)
+IsRsp(x) == x > 0 /\ x <= 100
+IsEv(x) == x < 0
 ClientRead ==
     /\ phase = "done" /\ s2c # <<>>
-    /\ LET d == Deliver(Head(s2c), cacc, rspGot) IN /\ cacc' = d.acc /\ rspGot' = d.got
+    /\ LET d == Deliver(Head(s2c), cacc, <<>>) IN
+       /\ cacc' = d.acc
+       /\ rspGot' = rspGot \o Keep(d.got, IsRsp)
+       /\ evGot' = evGot \o Keep(d.got, IsEv)
     /\ s2c' = Tail(s2c)
     /\ Log([a |-> "c-read"])
-    /\ UNCHANGED <<phase, cmodern, smodern, c2s, sacc, reqSent, reqGot, rspSent>>
+    /\ UNCHANGED <<phase, cmodern, smodern, c2s, sacc, reqSent, reqGot, rspSent, evSent, spSent, dupDone>>
+
+\* C10: the server pushes an event, or answers a stream id no request carries; either may be packed by a raw server
+\* like any other envelope (here: by itself)
+ServerPush(kind) ==
+    /\ phase = "done"
+    /\ IF kind = "event" THEN Len(evSent) < NEvents ELSE spSent < NSpurious
+    /\ LET id == IF kind = "event" THEN 0 - (Len(evSent) + 1) ELSE 100 + spSent + 1 IN
+       /\ s2c' = Append(s2c, Solo(smodern, id))
+       /\ Log([a |-> "s-send", ids |-> <<id>>, pack |-> <<Solo(smodern, id)>>])
+       /\ IF kind = "event" THEN evSent' = Append(evSent, id) /\ UNCHANGED spSent ELSE spSent' = spSent + 1 /\ UNCHANGED evSent
+    /\ UNCHANGED <<phase, cmodern, smodern, c2s, cacc, sacc, reqSent, reqGot, rspSent, rspGot, evGot, dupDone>>
+
+\* C09 / C10: the client application sends again under the stream id of a request still awaiting its response: refused,
+\* and nothing else changes - the original request still gets its response
+ClientSendDup ==
+    /\ phase = "done" /\ Dup /\ ~dupDone /\ ClientLib
+    \* (a request whose response the server has not even sent yet: whatever the client has read ahead, it is unanswered)
+    /\ \E r \in {reqSent[i] : i \in 1..Len(reqSent)} \ {rspSent[i] : i \in 1..Len(rspSent)} :
+         Log([a |-> "c-send-dup", ids |-> <<r>>])
+    /\ dupDone' = TRUE
+    /\ UNCHANGED <<phase, cmodern, smodern, c2s, s2c, cacc, sacc, reqSent, reqGot, rspSent, rspGot, evSent, evGot, spSent>>
 
 (* C16: a fault may strike between any two steps; afterwards nothing more is exchanged.  What must hold then is  *)
 (* checked on the real connections by the harness: every request still awaiting a response is completed with  *)
@@ -159,10 +195,11 @@ Fault(kind) ==
     /\ phase # "closed"
     /\ phase' = "closed"
     /\ Log([a |-> "fault", kind |-> kind])
-    /\ UNCHANGED <<cmodern, smodern, c2s, s2c, cacc, sacc, reqSent, reqGot, rspSent, rspGot>>
+    /\ UNCHANGED <<cmodern, smodern, c2s, s2c, cacc, sacc, reqSent, reqGot, rspSent, rspGot, c10vars>>
 
 Next == (\E kind \in Faults : Fault(kind)) \/ ClientStartup \/ ServerAnswerStartup \/ ClientReadAnswer \/ ServerAuthSuccess \/ ClientReadAuthSuccess
         \/ (\E k \in 1..2 : ClientSend(k)) \/ ServerRead \/ (\E k \in 1..2 : ServerSend(k)) \/ ClientRead
+        \/ ServerPush("event") \/ ServerPush("spurious") \/ ClientSendDup
 
 Spec == Init /\ [][Next]_vars
 
@@ -183,9 +220,12 @@ WireOK == \A ch \in {c2s, s2c} : \A i \in 1..Len(ch) :
 ModesAgree == phase = "done" => cmodern = Modern /\ smodern = Modern
 \* everything sent is eventually deliverable: when the pipes are empty nothing is half-assembled and all arrived
 Quiescent == c2s = <<>> /\ s2c = <<>>
-AllArrive == Quiescent => reqGot = reqSent /\ rspGot = rspSent /\ cacc = <<>> /\ sacc = <<>>
+AllArrive == Quiescent => reqGot = reqSent /\ rspGot = rspSent /\ cacc = <<>> /\ sacc = <<>> /\ evGot = evSent
+\* C10: events reach the event channel in order and nothing else does; a request only ever gets its own response
+EventsInOrder == IsPrefix(evGot, evSent)
+OnlyOwnResponses == \A i \in 1..Len(rspGot) : rspGot[i] \in {reqSent[j] : j \in 1..Len(reqSent)}
 
-Finished == \/ phase = "done" /\ Len(reqSent) = NReq /\ Len(rspSent) = NReq /\ Quiescent
+Finished == \/ phase = "done" /\ Len(reqSent) = NReq /\ Len(rspSent) = NReq /\ Quiescent /\ Len(evSent) = NEvents /\ spSent = NSpurious
             \/ phase = "closed"
 \* requests the client application is still waiting on when the fault strikes
 Pending == {r \in 1..NReq : r \in {reqSent[i] : i \in 1..Len(reqSent)} /\ r \notin {rspGot[i] : i \in 1..Len(rspGot)}}
